@@ -571,7 +571,7 @@ class ROMC(ParameterInference):
         param_dict = flat_array_to_dict(model.parameter_names, theta)
         dict_outputs = model.generate(
             batch_size=1, outputs=[output_node], with_values=param_dict, seed=int(seed))
-        return float(dict_outputs[output_node]) ** 2
+        return float(np.squeeze(dict_outputs[output_node])) ** 2
 
     def _freeze_seed(self, seed):
         """Freeze the model.generate with a specific seed.
@@ -1565,7 +1565,7 @@ class OptimisationProblem:
         def local_surrogate(theta, model_scikit):
             assert theta.ndim == 1
             theta = np.expand_dims(theta, 0)
-            return float(model_scikit.predict(theta))
+            return float(np.squeeze(model_scikit.predict(theta)))
 
         def create_local_surrogate(model):
             return partial(local_surrogate, model_scikit=model)
